@@ -402,10 +402,10 @@ func (c *Cluster) sessionControl(cn *Conn, req *memd.Packet) *memd.Packet {
 			res.Status = memd.StatusNoBucket
 		} else {
 			res.Value = c.configJSON(cn.tag, cn.bucket)
-			if cn.bucket.rev != cn.cfgRevSent {
+			if cn.bucket.revKey() != cn.cfgRevSent {
 				// which revision of the cluster map each agent has been given: the map "listed" for that client
-				cn.cfgRevSent = cn.bucket.rev
-				c.w.jl(&journal.Ev{K: journal.KNote, M: cn.member, Vb: -1, S: "config-sent", S2: cn.role, I: cn.bucket.rev, ID: cn.id})
+				cn.cfgRevSent = cn.bucket.revKey()
+				c.w.jl(&journal.Ev{K: journal.KNote, M: cn.member, Vb: -1, S: "config-sent", S2: cn.role, I: cn.bucket.revKey(), ID: cn.id})
 			}
 		}
 	default:
@@ -1249,3 +1249,6 @@ var crc32tab = func() [256]uint32 {
 	}
 	return t
 }()
+
+// revKey identifies a cluster-map generation across revision epochs (journal field I of vbmap / config-sent).
+func (b *Bucket) revKey() int64 { return b.revEpoch*1_000_000 + b.rev }
